@@ -85,7 +85,7 @@ func fromReal(a seg.ASEntry) entryT {
 	return e
 }
 
-func (e entryT) real(i int) seg.ASEntry {
+func (e entryT) real(hbID, sigID uint64) seg.ASEntry {
 	a := seg.ASEntry{Local: e.Local.addr(), Next: e.Next.addr(), MTU: int(e.MTU)}
 	a.HopEntry = seg.HopEntry{IngressMTU: int(e.InMTU),
 		HopField: seg.HopField{ConsIngress: e.In, ConsEgress: e.Eg, ExpTime: e.Exp, MAC: e.MAC}}
@@ -93,7 +93,7 @@ func (e entryT) real(i int) seg.ASEntry {
 		a.PeerEntries = append(a.PeerEntries, seg.PeerEntry{Peer: p.IA.addr(), PeerInterface: uint16(p.Rif), PeerMTU: int(p.MTU),
 			HopField: seg.HopField{ConsIngress: p.In, ConsEgress: p.Eg, ExpTime: p.Exp, MAC: p.MAC}})
 	}
-	a.Signed = &cryptopb.SignedMessage{HeaderAndBody: []byte(fmt.Sprintf("hb-%d", i)), Signature: []byte(fmt.Sprintf("sig-%d", i))}
+	a.Signed = &cryptopb.SignedMessage{HeaderAndBody: []byte(fmt.Sprintf("m-%d", hbID)), Signature: []byte(fmt.Sprintf("m-%d", sigID))}
 	return a
 }
 
@@ -262,6 +262,16 @@ func main() {
 			}
 		}
 		segID := uint16(r.U64())
+		// identity numbers of the signed messages of the existing entries: distinct, non-zero, unrelated to the position
+		msgIDs := make([]uint64, 2*n)
+		for k := range msgIDs {
+			msgIDs[k] = uint64(k)
+		}
+		vgen.Shuffle(r, msgIDs)
+		idOff := uint64(r.Range(1, 1000000))
+		for k := range msgIDs {
+			msgIDs[k] += idOff
+		}
 		// ingress / egress
 		var ingress, egress uint16
 		if n == 0 {
@@ -389,7 +399,7 @@ func main() {
 			panic(err)
 		}
 		for k, e := range entries {
-			ps.ASEntries = append(ps.ASEntries, e.real(k))
+			ps.ASEntries = append(ps.ASEntries, e.real(msgIDs[2*k], msgIDs[2*k+1]))
 		}
 		// accumulated SegID, computed independently of extractBeta
 		beta := segID
@@ -403,6 +413,7 @@ func main() {
 
 		obsT := "None"
 		var obsD any = "rejected"
+		assocIDs := []uint64{}
 		accepted := !panicked && xerr == nil
 		if accepted {
 			ne := ps.ASEntries[len(ps.ASEntries)-1]
@@ -417,15 +428,20 @@ func main() {
 					if bytes.Equal(a, ps.Info.Raw) {
 						code = 0
 					}
+					id := uint64(999999999)
+					if code == 0 {
+						id = 0
+					}
 					for k := range entries {
-						if string(a) == fmt.Sprintf("hb-%d", k) {
-							code = uint64(2*k + 1)
+						if string(a) == fmt.Sprintf("m-%d", msgIDs[2*k]) {
+							code, id = uint64(2*k+1), msgIDs[2*k]
 						}
-						if string(a) == fmt.Sprintf("sig-%d", k) {
-							code = uint64(2*k + 2)
+						if string(a) == fmt.Sprintf("m-%d", msgIDs[2*k+1]) {
+							code, id = uint64(2*k+2), msgIDs[2*k+1]
 						}
 					}
 					assoc = append(assoc, code)
+					assocIDs = append(assocIDs, id)
 				}
 				var body cppb.ASEntrySignedBody
 				if proto.Unmarshal(c.Msg, &body) == nil && body.HopEntry != nil && body.HopEntry.HopField != nil {
@@ -457,7 +473,7 @@ func main() {
 			}
 			obsT = fmt.Sprintf("(Some (Extend.Build_obs %s %d %s %s %s))", et.term(), sidx, vgen.NList(assoc),
 				vgen.B(bodyOK), vgen.B(macsOK))
-			obsD = map[string]any{"entry": fmt.Sprintf("%+v", et), "signer": sidx, "assoc": assoc, "body_ok": bodyOK, "macs_ok": macsOK}
+			obsD = map[string]any{"entry": fmt.Sprintf("%+v", et), "signer": sidx, "assoc": assoc, "body_ok": bodyOK, "macs_ok": macsOK, "assoc_ids": assocIDs}
 			run.Tally(fmt.Sprintf("accepted:peers=%d", len(ne.PeerEntries)))
 			if hf.ExpTime < maxExp {
 				run.Tally("accepted:expiry-shortened")
@@ -481,7 +497,7 @@ func main() {
 		sgT2 := vgen.ListOf(sgo, func(s sgOut) string { return fmt.Sprintf("(Extend.Build_signer %s %s)", zt(s.NB), zt(s.NA)) })
 		entT := make([]string, len(entries))
 		for k, e := range entries {
-			entT[k] = fmt.Sprintf("(%s, (%d, %d))", e.term(), 2*k+1, 2*k+2)
+			entT[k] = fmt.Sprintf("(%s, (%d, %d))", e.term(), msgIDs[2*k], msgIDs[2*k+1])
 		}
 		segT := fmt.Sprintf("(Extend.Build_segment %s %d %s)", zt(tsSec), segID, vgen.List(entT))
 		macT := vgen.ListOf(macs, func(m macRec) string { return vgen.Pair(vgen.Bytes(m.In), vgen.Bytes(m.Out)) })
@@ -489,8 +505,8 @@ func main() {
 		for k, p := range peers {
 			pe[k] = uint64(p)
 		}
-		term := vgen.App("Extend.CExt", cfgT, sgT2, vgen.B(genErr), zt(now0.UnixNano()), segT,
-			vgen.N(uint64(ingress)), vgen.N(uint64(egress)), vgen.NList(pe), macT, obsT)
+		term := vgen.App("Extend.CExt2", cfgT, sgT2, vgen.B(genErr), zt(now0.UnixNano()), segT,
+			vgen.N(uint64(ingress)), vgen.N(uint64(egress)), vgen.NList(pe), macT, obsT, vgen.NList(assocIDs))
 		desc := map[string]any{"local": local.String(), "mtu": mtu, "max_exp": maxExp, "ifs": fmt.Sprintf("%+v", ifs), "n": n,
 			"broken": broken, "ingress": ingress, "egress": egress, "peers": peers, "age_s": age, "signers": fmt.Sprintf("%+v", sgs),
 			"gen_err": genErr, "impl": obsD}
